@@ -5,6 +5,8 @@
 (* graphs in the shape of SerdeIR's state (projected through public        *)
 (* accessors); TLC evaluates, on the OBSERVED objects,                      *)
 (*    ser   Serializable(orig, root)                                       *)
+(*          (node device configurations, component ndc, are part of Iso;   *)
+(*          the harness records them for the original from IR version 11)  *)
 (*    iso   Iso(orig, root, deser, droot)          -- C03: ser => iso      *)
 (*    miso  the specification's own Deser(Ser(orig)) is isomorphic to what  *)
 (*          the implementation rebuilt (conformance of Ser and Deser)       *)
@@ -33,7 +35,8 @@ Verdict(r) ==
   IN [ id |-> r.id, kind |-> r.kind, fn |-> r.fn,
        ser |-> Serializable(o, o.root), why |-> IF Serializable(o, o.root) THEN "" ELSE WhyNot(o, o.root), iso |-> iso,
        rtErr |-> rt.err,
-       miso |-> IF rt.err = "" THEN Iso(rt.cs, rt.root, d, d.root) ELSE FALSE ]
+       \* Ser/Deser do not model device configurations: that component is left out of this comparison
+       miso |-> IF rt.err = "" THEN Iso(rt.cs, rt.root, [f \in DOMAIN d \ {"ndc"} |-> d[f]], d.root) ELSE FALSE ]
 
 Judge == PrintT(ToJson(Verdict(Trace[i])))
 =============================================================================
